@@ -7,4 +7,4 @@ Extraction Language OCaml.
 Extraction "../ocaml/c20/model.ml" verify_name make_verified valid_nameb use_statement parse_use
   verify_result canon eq_ci use_keyspace_result is_ok is_err
   accept_trace acc_init acc_step first_reject pending_calls
-  init step run matchesb pool_conns prop_violb yinit ystep yrun hrun Z.of_N N.to_nat.
+  prop_violb Z.of_N N.to_nat.
